@@ -714,6 +714,36 @@ def unmarshal (proto : Nat) (t : CT) (dst : Dest) (d : Option Bytes) : Outcome :
           if ds.length < es.length then .err else ifsLoop proto es 0 ds (d.getD [])
       | _ => .err      -- every other decoder: "can not unmarshal into non-pointer"
 
+/-! ## Allocation: what the top-level collection decode asks reflect for -/
+
+/-- the element count the decode of a list / set / map VALUE hands to reflect.MakeSlice (list, set) or,
+    doubled (a key and a value per entry), to reflect.MakeMapWithSize — 0 when the decoder does not get
+    that far. It is the model's allocation counter for the value decoders (nested collections are
+    bounded the same way, each against its own bytes). -/
+def topAllocCount (proto : Nat) (t : CT) (g : GT) (data : Option Bytes) : Nat :=
+  match t, data with
+  | .list _, some d =>
+    (match seqKind g with
+     | some (false, _, _) =>
+       (match readCollectionSize proto d with
+        | .ok (n, p) => (match makeCount n (d.length - p) p with | .ok c => c | _ => 0)
+        | _ => 0)
+     | _ => 0)
+  | .map _ _, some d =>
+    (match g with
+     | .map _ _ =>
+       (match readCollectionSize proto d with
+        | .ok (n, p) => (match makeMapCount n (d.length - p) p with | .ok c => 2 * c | _ => 0)
+        | _ => 0)
+     | _ => 0)
+  | _, _ => 0
+
+/-- the destination type the top-level decoder works on -/
+def destType (t : CT) : Dest → Option GT
+  | .val g => some (stripPtr g)
+  | .deflt => (match goType t with | .ok g => some (stripPtr g) | _ => none)
+  | .ifs _ => none
+
 /-! ## Answers (line protocol) -/
 
 def Fn.str : Fn → String
@@ -871,6 +901,15 @@ def parseWord {α : Type} (f : Node → Option α) (s : String) : Option α :=
 /-- op line `val <proto> <type> <dest> <hex|nil|->`: the model's answer; `none` for other ops -/
 def answer (ws : List String) : Option String :=
   match ws with
+  | ["alloc", "val", p, t, d, h] =>
+    -- allocation class of one Unmarshal: `ok` = the element count asked of reflect fits the bytes received
+    -- (always, by C05Value.C05_top_alloc_bound), `over:<count>` otherwise
+    (match p.toNat?, parseWord toCT t, parseWord toDest d, parseData h with
+     | some proto, some ct, some dst, some data =>
+       if proto > 255 then some "bad-op" else
+       let c := (match destType ct dst with | some g => topAllocCount proto ct g data | none => 0)
+       if c * (if proto > 2 then 4 else 2) ≤ (data.getD []).length then some "ok" else some ("over:" ++ toString c)
+     | _, _, _, _ => some "bad-op")
   | "val" :: rest =>
     match rest with
     | [p, t, d, h] =>
